@@ -161,6 +161,144 @@ def run_scenario(sc, scripts):
     return trace
 
 
+def run_tunnel_scenario(sc, scripts):
+    """Second stack: real mitmproxy.proxy.tunnel.TunnelLayer (trivial handshake) -> Router -> children.
+    A child's "open" step yields OpenConnection for the tunnelled connection; the tunnel then opens its own
+    connection (T waits), starts the handshake, and replies to the child when handshake data arrived.  Events that
+    arrive while the handshake is in flight must reach the (unblocked) layers right away."""
+    from mitmproxy.proxy import commands, events, layer, tunnel
+    from mitmproxy import connection
+    from vf import sansio
+
+    Ask, AskCompleted = _classes()
+    ctx = sansio.make_context()
+    trace: list[dict] = [{"k": "ask_done", "c": 0, "chosen": True}]  # no NextLayer in this stack
+    counter = {"cmd": 0}
+    srv = connection.Server(address=("b", 1))
+    srv.state = connection.ConnectionState.OPEN
+    tun = connection.Server(address=("t", 1))  # the tunnelled connection, not yet open
+    conns = {"A": ctx.client, "B": srv}
+    by_conn = {id(v): k for k, v in conns.items()}
+
+    def new_cmd():
+        counter["cmd"] += 1
+        return counter["cmd"]
+
+    opens: dict[int, object] = {}
+
+    class Child(layer.Layer):
+        def __init__(self, context, name):
+            super().__init__(context)
+            self.name = name
+
+        def _handle_event(self, event):
+            eid, sid = event.data[0], event.data[1]
+            trace.append({"k": "enter", "L": self.name, "e": eid})
+            for step in scripts[sid - 1]:
+                if step == "emit":
+                    yield commands.SendData(event.connection, b"x")
+                elif step == "open":
+                    c = commands.OpenConnection(tun)
+                    n = new_cmd()
+                    opens[n] = c
+                    trace.append({"k": "block", "L": self.name, "c": n})
+                    r = yield c
+                    trace.append({"k": "resume", "L": self.name, "c": n, "r": 0 if r is None else -1})
+                else:
+                    c = Ask(new_cmd())
+                    trace.append({"k": "block", "L": self.name, "c": c.n})
+                    r = yield c
+                    trace.append({"k": "resume", "L": self.name, "c": c.n, "r": r if isinstance(r, int) else -1})
+            trace.append({"k": "exit", "L": self.name, "e": eid})
+
+    class Router(layer.Layer):
+        name = "R"
+
+        def __init__(self, context):
+            super().__init__(context)
+            self.children = {n: Child(context.fork(), n) for n in LAYERS}
+            self.command_sources = {}
+
+        def _handle_event(self, event):
+            if isinstance(event, events.CommandCompleted):
+                child = self.command_sources.pop(event.command)
+            elif isinstance(event, events.ConnectionEvent) and id(event.connection) in by_conn:
+                child = self.children[by_conn[id(event.connection)]]
+            else:
+                return
+            for command in child.handle_event(event):
+                if command.blocking:
+                    self.command_sources[command] = child
+                yield command
+
+    class TTunnel(tunnel.TunnelLayer):
+        def start_handshake(self):
+            yield from ()
+
+        def receive_handshake_data(self, data):
+            yield from ()
+            return True, None
+
+    top = TTunnel(ctx, tun, tun)
+    top.child_layer = Router(ctx)
+    blocks: dict[int, object] = {}
+    topen: dict[int, object] = {}
+    completed: set[int] = set()
+
+    def collect(cmds):
+        for c in cmds:
+            if isinstance(c, Ask):
+                blocks[c.n] = c
+            elif isinstance(c, commands.OpenConnection) and c.connection is tun and c not in opens.values():
+                n = new_cmd()
+                topen[n] = c
+                trace.append({"k": "block", "L": "T", "c": n})
+
+    eid = 0
+    hs_in_flight = False
+    for op in sc["ops"]:
+        if op[0] == "arrive":
+            eid += 1
+            L, sid = op[1], op[2]
+            rec = {"k": "arrive", "L": L, "e": eid}
+            if hs_in_flight:
+                rec["hs"] = True
+            trace.append(rec)
+            collect(list(top.handle_event(events.DataReceived(conns[L], bytes([eid, sid])))))
+        elif op[0] == "complete":
+            L = op[1]
+            cand = [n for n, c in blocks.items() if c.blocking is not True and getattr(c.blocking, "name", None) == L
+                    and n not in completed]
+            if not cand:
+                break
+            n = min(cand)
+            completed.add(n)
+            trace.append({"k": "complete", "c": n, "r": 10 + n})
+            collect(list(top.handle_event(AskCompleted(blocks[n], 10 + n))))
+        elif op[0] == "topen_done":
+            cand = [n for n in topen if n not in completed]
+            if not cand:
+                break
+            n = min(cand)
+            completed.add(n)
+            tun.state = connection.ConnectionState.OPEN
+            trace.append({"k": "complete", "c": n, "r": 0})
+            collect(list(top.handle_event(events.OpenConnectionCompleted(topen[n], None))))
+            hs_in_flight = True
+        elif op[0] == "hs_data":
+            if not hs_in_flight:
+                break
+            # the handshake data completes the child's pending open (the tunnel synthesizes the completion)
+            for n in sorted(opens):
+                if n not in completed:
+                    completed.add(n)
+                    trace.append({"k": "complete", "c": n, "r": 0})
+            hs_in_flight = False
+            collect(list(top.handle_event(events.DataReceived(tun, b"h"))))
+    trace.append({"k": "end"})
+    return trace
+
+
 class Check(core.PropertyCheck):
     ID = "C04"
     SPEC_DIR = "LayerQueue"
@@ -168,7 +306,8 @@ class Check(core.PropertyCheck):
     MON = "Mon_LayerQueue"
     REQUIRED_WITNESSES = ("arrive_while_sibling_blocked", "arrive_while_blocked", "arrive_before_choice", "resume",
                           "resume_with_queue", "chosen", "not_chosen", "arrive_while_parent_blocked",
-                          "child_completion_while_parent_blocked")
+                          "child_completion_while_parent_blocked",
+                          "arrive_while_tunnel_opening", "arrive_during_tunnel_handshake")
     REQUIRED_ACTIONS = ("Arrive", "AskDone", "Complete", "CompleteR")
     ASSUMPTIONS = (
         "child handler bodies and the pass-through router are harness code (the router copies the command_sources idiom "
@@ -229,6 +368,29 @@ class Check(core.PropertyCheck):
                 if not ops or ops[-1] != ["end"]:
                     pred = pred + [{"k": "end"}]
                 yield core.Scenario({"scripts": scripts, "ops": ops}, predicted=pred, source="simulate")
+        # tunnel scenarios (real TunnelLayer between the environment and the router; not part of the TLA+ model, judged by
+        # the same monitor): a child opens the tunnelled connection, events arrive while the handshake is in flight
+        trng = random.Random(ctx.seed + 44)
+        tscripts = (("open",), ("emit",), ("block",), ("open", "block"))
+        for _ in range(150 if ctx.quick else 2000):
+            ops = [["arrive", "A", trng.choice([1, 4])]]  # A opens the tunnelled connection
+            phase = 0
+            for _k in range(trng.randint(3, 9)):
+                r = trng.random()
+                if phase == 0 and r < 0.35:
+                    ops.append(["topen_done"]); phase = 1
+                elif phase == 1 and r < 0.3:
+                    ops.append(["hs_data"]); phase = 2
+                elif r < 0.75:
+                    ops.append(["arrive", trng.choice(["A", "B", "B"]), trng.choice([2, 3])])
+                else:
+                    ops.append(["complete", trng.choice(["A", "B"])])
+            if phase == 0:
+                ops.append(["topen_done"]); phase = 1
+            if phase == 1:
+                ops += [["arrive", "B", 2], ["hs_data"]]
+            ops.append(["arrive", "B", 2])
+            yield core.Scenario({"kind": "tunnel", "scripts": tscripts, "ops": ops}, source="suite")
         # longer random histories, generated against the harness's own bookkeeping (not bounded by MaxEvents)
         rng = random.Random(ctx.seed + 4)
         for _ in range(300 if ctx.quick else 3000):
@@ -237,6 +399,8 @@ class Check(core.PropertyCheck):
 
     def execute(self, sc):
         scripts = [tuple(s) for s in sc["scripts"]]
+        if sc.get("kind") == "tunnel":
+            return run_tunnel_scenario(sc, scripts)
         if sc.get("ops") is None:
             return self._random(sc, scripts)
         return run_scenario(sc, scripts)
